@@ -34,6 +34,8 @@ pub enum Node {
 
 pub fn eval(expr: Node) -> Result<Complex<f64>, Box<dyn error::Error>> {
     use self::Node::*;
+    #[cfg(feature = "verif_hooks")]
+    crate::verif_hooks::tick(crate::verif_hooks::Site::EvalEnter);
     match expr {
         Number(i) => Ok(i),
         Add(expr1, expr2) => Ok(eval(*expr1)? + eval(*expr2)?),
